@@ -25,16 +25,20 @@ type c10Cell struct {
 	Src     string `json:"src"`
 	SrcSub  bool   `json:"src_is_subimage"`
 	SrcBand bool   `json:"src_is_full_width_band,omitempty"`
-	Content int    `json:"content_mode,omitempty"`
-	Dst     string `json:"dst"` // RGBA64 RGBA NRGBA NRGBA64 opaque
-	W       int    `json:"w"`
-	H       int    `json:"h"`
-	OX      int    `json:"src_origin_x"`
-	OY      int    `json:"src_origin_y"`
-	DstMode string `json:"dst_mode"` // same | larger | sub | inplace
-	Par     int    `json:"parallelism"`
-	Fn      string `json:"transform"` // hash | <space>.LineariseImage | <space>.EncodeImage
-	Seed    uint64 `json:"content_seed"`
+	// SrcOdd: hand-built source whose stride is not a multiple of its pixel size
+	SrcOdd bool `json:"src_has_odd_stride,omitempty"`
+	// SrcCorner: 4 = the source is the bottom-right corner of its parent, 5 = the top-left corner
+	SrcCorner int    `json:"src_parent_corner,omitempty"`
+	Content   int    `json:"content_mode,omitempty"`
+	Dst       string `json:"dst"` // RGBA64 RGBA NRGBA NRGBA64 opaque
+	W         int    `json:"w"`
+	H         int    `json:"h"`
+	OX        int    `json:"src_origin_x"`
+	OY        int    `json:"src_origin_y"`
+	DstMode   string `json:"dst_mode"` // same | larger | sub | inplace
+	Par       int    `json:"parallelism"`
+	Fn        string `json:"transform"` // hash | <space>.LineariseImage | <space>.EncodeImage
+	Seed      uint64 `json:"content_seed"`
 }
 
 var c10SrcKinds = []string{"RGBA64", "NRGBA64", "RGBA", "NRGBA", "YCbCr444", "YCbCr422", "YCbCr420", "YCbCr440", "YCbCr411", "YCbCr410", "NYCbCrA", "Gray", "Gray16", "Alpha", "Alpha16", "CMYK", "Paletted", "Uniform", "opaque"}
@@ -79,6 +83,12 @@ func c10Wild(c color.Color) color.RGBA64 {
 }
 
 func c10SubMode(c c10Cell) int {
+	if c.SrcOdd {
+		return 3
+	}
+	if c.SrcCorner != 0 {
+		return c.SrcCorner
+	}
 	if c.SrcBand {
 		return 2
 	}
@@ -339,6 +349,31 @@ func c10Cells(seed int64, thorough bool, race bool) []c10Cell {
 						cells = append(cells, c10Cell{Src: sk, SrcBand: fi%2 == 0, Dst: dk, W: 8, H: 12, OX: 1, OY: 2, DstMode: "inplace", Par: par, Fn: fn, Content: c10Orbit, Seed: rng.U64()})
 					}
 				}
+			}
+		}
+	}
+	// hand-built sources with an odd stride; images above 65 536 pixels (a size from which an
+	// implementation might switch strategy), in place and out of place, at parallelisms that do not
+	// divide the row count
+	for _, sk := range c10SrcKinds {
+		for _, dk := range c10DstKinds {
+			fi++
+			if !race {
+				cells = append(cells, c10Cell{Src: sk, SrcOdd: true, Dst: dk, W: 7, H: 6, OX: 1, OY: 2, DstMode: []string{"same", "sub", "larger"}[fi%3], Par: 1 + fi%3, Fn: []string{"hash", fns[fi%len(fns)]}[fi%2], Seed: rng.U64()})
+				if sk == dk && dk != "opaque" {
+					cells = append(cells, c10Cell{Src: sk, SrcOdd: true, Dst: dk, W: 7, H: 6, OX: 1, OY: 2, DstMode: "inplace", Par: 2, Fn: "hash", Seed: rng.U64()},
+						c10Cell{Src: sk, SrcCorner: 4, Dst: dk, W: 5, H: 4, OX: 2, OY: 1, DstMode: "inplace", Par: 3, Fn: "hash", Seed: rng.U64()})
+				}
+				cells = append(cells,
+					c10Cell{Src: sk, SrcCorner: 4, Dst: dk, W: 5, H: 4, OX: 2, OY: 1, DstMode: []string{"same", "sub"}[fi%2], Par: 1 + fi%4, Fn: fns[fi%len(fns)], Seed: rng.U64()},
+					c10Cell{Src: sk, SrcCorner: 5, Dst: dk, W: 5, H: 4, OX: 2, OY: 1, DstMode: "larger", Par: 2, Fn: "hash", Seed: rng.U64()},
+					c10Cell{Src: sk, SrcSub: true, Dst: dk, W: 6, H: 5, OX: 1, OY: 1, DstMode: "same", Par: 1 + fi%3, Fn: fns[(fi+1)%len(fns)], Content: 5, Seed: rng.U64()})
+			}
+			if sk == dk && dk != "opaque" && !race {
+				for _, par := range []int{2, 3, 7, 16} {
+					cells = append(cells, c10Cell{Src: sk, Dst: dk, W: 301, H: 299, OX: 0, OY: 0, DstMode: "inplace", Par: par, Fn: "hash", Seed: rng.U64()})
+				}
+				cells = append(cells, c10Cell{Src: sk, Dst: dk, W: 1031, H: 67, OX: -5, OY: -3, DstMode: "same", Par: 5, Fn: fns[fi%len(fns)], Seed: rng.U64()})
 			}
 		}
 	}
